@@ -35,6 +35,25 @@ func inflatedValues(w int) []uint64 {
 	}
 }
 
+// dangerous returns the byte positions (2 and up of a 4/8-byte prefix that the decoder allocates
+// from) where an arbitrary byte value means a 16 MiB .. 16 EiB allocation request. A decoder that
+// trusts the prefix (the defect C02 is about) then zeroes gigabytes per call, and for 8-byte prefixes
+// between 2^33 and 2^47 the Go runtime aborts the whole process with an unrecoverable "out of memory"
+// fatal error, which no harness can survive. The injector therefore only changes the lowest bit of
+// byte 2 (+-64 KiB) and leaves bytes 3.. alone; prefixes are still inflated to 2^17 and 2^20 in every
+// inflate-prefix run, to 2^31 / 2^32-1 in rare huge runs, and to 2^63 / 2^64-1 for 8-byte prefixes.
+func dangerous(marks []mark) map[int]bool {
+	out := map[int]bool{}
+	for _, m := range marks {
+		if m.alloc && m.w >= 4 {
+			for i := 2; i < m.w; i++ {
+				out[m.off+i] = true
+			}
+		}
+	}
+	return out
+}
+
 func putLE(b []byte, off, w int, u uint64) {
 	for i := 0; i < w; i++ {
 		b[off+i] = byte(u >> (8 * i))
@@ -67,12 +86,16 @@ func forEachFault(s *simrt.Sim, class string, in []byte, marks []mark, huge bool
 		var ps []pos
 		for _, m := range marks {
 			for i := 0; i < m.w; i++ {
+				if m.alloc && m.w >= 4 && i >= 3 {
+					continue // see dangerous()
+				}
 				ps = append(ps, pos{m.off + i, m.kind})
 			}
 		}
 		if len(ps) == 0 {
 			return
 		}
+		dang := dangerous(marks)
 		start := s.Choose(len(ps))
 		for i := range ps {
 			p := ps[(start+i)%len(ps)]
@@ -91,7 +114,7 @@ func forEachFault(s *simrt.Sim, class string, in []byte, marks []mark, huge bool
 				case "+1":
 					b[p.off]++
 				}
-				if b[p.off] == old {
+				if b[p.off] == old || (dang[p.off] && variant != "^01" && variant != "+1") {
 					continue
 				}
 				s.Fault("flip-" + p.kind)
@@ -127,6 +150,7 @@ func forEachFault(s *simrt.Sim, class string, in []byte, marks []mark, huge bool
 		if len(in) == 0 {
 			return
 		}
+		dang := dangerous(marks)
 		for i := 0; i < 24; i++ {
 			b := append([]byte{}, in...)
 			nf := 1 + s.Choose(3)
@@ -137,6 +161,9 @@ func forEachFault(s *simrt.Sim, class string, in []byte, marks []mark, huge bool
 				if s.Choose(4) == 0 {
 					mask = byte(1 + s.Choose(255))
 				}
+				if dang[p] {
+					mask = 1
+				}
 				b[p] ^= mask
 				d = append(d, fmt.Sprintf("@%d^%02x", p, mask))
 			}
@@ -145,6 +172,11 @@ func forEachFault(s *simrt.Sim, class string, in []byte, marks []mark, huge bool
 		}
 	case "splice":
 		if len(in) < 2 {
+			return
+		}
+		if len(dangerous(marks)) > 0 {
+			// shifting bytes into a 4/8-byte allocation prefix produces random gigabyte lengths
+			forEachFault(s, "flip-sampled", in, marks, huge, fn)
 			return
 		}
 		for i := 0; i < 16; i++ {
